@@ -491,6 +491,9 @@ impl<'a, 'tcx> Cx<'a, 'tcx> {
             o.push(("unsafe".into(), J::Bool(!sig.safety().is_safe())));
             o.push(("sig".into(), s(with_no_trimmed_paths!(format!("{}", sig)))));
             o.push(("vis".into(), s(format!("{:?}", tcx.visibility(did)))));
+            if let Some(l) = did.as_local() {
+                o.push(("reachable".into(), J::Bool(tcx.effective_visibilities(()).is_reachable(l))));
+            }
             o.push(("name".into(), s(tcx.item_name(did).to_string())));
             if let Some(assoc) = tcx.opt_associated_item(did) {
                 let cont = assoc.container_id(tcx);
@@ -572,6 +575,7 @@ fn crate_tables(tcx: TyCtxt<'_>) -> (J, J) {
                     ("repr_int".into(), s(format!("{:?}", repr.int))),
                     ("repr_align".into(), s(format!("{:?}", repr.align))),
                     ("vis".into(), s(format!("{:?}", tcx.visibility(did)))),
+                    ("reachable".into(), J::Bool(did.as_local().map_or(true, |l| tcx.effective_visibilities(()).is_reachable(l)))),
                     ("generics".into(), generic_names(tcx, did)),
                     ("variants".into(), J::Arr(vars)),
                     ("span".into(), s(span_str(tcx, tcx.def_span(did)))),
